@@ -397,6 +397,7 @@ type edge struct {
 }
 
 type callRec struct {
+	common *ssa.CallCommon // identifies the call site
 	val  *Val
 	cond string
 	args []*Val
@@ -441,6 +442,7 @@ type frame struct {
 	loopPre map[*loopInfo]*State
 	loopEntry map[*loopInfo]map[*ssa.Phi]string // value of each header phi when the loop was entered ($entry_<name>)
 	callLog map[string][]callRec
+	sitesCache map[string][]*ssa.CallCommon
 	preTerm string // the function's precondition (top frame)
 	prefix string // obligation label prefix of an inlined activation
 	silent bool   // no obligations (evaluation of contract expressions)
